@@ -436,6 +436,11 @@ def assumed_ok(assumptions, subj, _d=0):
     for pred, value in assumptions:
         if isinstance(value, tuple) and value[0] == "ok" and pred(subj):
             return value[1]
+    if subj[0] == "call" and subj[1].split("::")[-1] in ("first", "last", "split_first", "split_last", "first_mut", "last_mut") and "slice" in subj[1] and subj[2]:
+        # xs.first() / xs.last() is Some exactly when xs is not empty
+        for pred, value in assumptions:
+            if isinstance(value, tuple) and value[0] == "len" and pred(subj[2][0]):
+                return value[1] > 0
     if subj[0] == "call" and subj[1] in SOMENESS_PRESERVING and subj[2] and _d < 4:
         # x.map(f) is Some exactly when x is
         return assumed_ok(assumptions, subj[2][0], _d + 1)
